@@ -17,11 +17,29 @@ var c10HasValue = [][2]string{
 	{`nothing = 1`, `false`}, {`nothing and true`, `false`}, {`nothing or true`, `true`}, {`nothing & "a"`, `"a"`}, {`nothing ? 1 : 2`, `2`}, {`$append(nothing, 1)`, `1`},
 	{`$count([nothing])`, `0`}, {`nothing in [1]`, `false`}, {`$sum([])`, `0`}, {`$count([])`, `0`}, {`$join([])`, `""`}, {`$merge([])`, `{}`}, {`$string([])`, `"[]"`},
 	{`$boolean([])`, `false`}, {`$map([1], function($v){nothing}) ~> $count`, `0`}, {`function($x){$count($x)}(nothing)`, `0`}, {`function($x, $y){$y}(nothing, 3)`, `3`},
+	{`$.(1)`, ``}, {`$.{"a":1}`, ``}, {`$.[1]`, ``}, {`$[true].(1)`, ``}, {`$.$count($)`, ``}, {`$`, ``}, {`$$`, ``}, {`$$.(1)`, ``}, {`$.a`, ``}, {`$[0]`, ``}, {`$^($).(1)`, ``}, {`*.(1)`, ``}, {`**.(1)`, ``},
+	{`nothing{"k": $.(1)}.k`, ``}, {`$.($x := 1; $x)`, ``}, {`($.(1))`, ``}, {`$.(1) ~> $string()`, ``}, {`$.$string()`, ``},
 	{`$map([1,2], function($v){nothing ~> $count})`, `[0,0]`}, {`(nothing; 1)`, `1`}, {`($x := nothing; $exists($x))`, `false`}, {`$reduce([1,2], function($a,$b){$a + $b}, nothing)`, `3`},
 }
 
 func c10HasValueProbe(r *fw.Rec, c [2]string) {
 	doc := `{"a":{}}`
+	if c[1] == "" {
+		// no context item at all (input null): a path that starts with the
+		// context variable has nothing to start from
+		doc = "null"
+		r.Begin(c[0], doc)
+		r.Tag("no-value-probe:no-context")
+		r.Nontrivial(c[0])
+		o := obs.Run(c[0], nil)
+		r.Outcome(o.Class())
+		if o.Kind != "undefined" {
+			r.Violation("no-value-not-reported-as-ErrUndefined", c[0]+" on the input null denotes no value but Eval returned "+o.String(), nil)
+			return
+		}
+		r.Held()
+		return
+	}
 	r.Begin(c[0], doc)
 	r.Tag("has-value-probe")
 	r.Nontrivial(c[0])
